@@ -1006,10 +1006,11 @@ class FunctionalQuadraticPerturb(Functional):
         else:
             self.__linear_term = func.domain.zero()
 
-        if linear_term is None:
-            grad_lipschitz = func.grad_lipschitz
-        else:
-            grad_lipschitz = (func.grad_lipschitz + self.linear_term.norm())
+        # The gradient is ``grad f(x) + 2 * a * x + u``: the quadratic term
+        # adds ``2 * |a|`` to the Lipschitz constant
+        grad_lipschitz = func.grad_lipschitz + 2 * abs(self.__quadratic_coeff)
+        if linear_term is not None:
+            grad_lipschitz = grad_lipschitz + self.linear_term.norm()
 
         constant = func.domain.field.element(constant)
         if constant.imag != 0:
